@@ -769,6 +769,36 @@ func (e *Env) call(n ECall) TVal {
 		}
 		hn, hs := vc.boxHeap(es)
 		return TVal{T: Term{app("select", vc.heapGet(e.st, hn, hs).S, a.T.S), es}, Ty: pt.Elem()}
+	case "lib":
+		// lib("pkg.Func", args...): the result of a pure library function (same symbol the executor uses)
+		if len(n.Args) < 1 {
+			return e.errf("lib needs a function name")
+		}
+		ns, ok := n.Args[0].(EStr)
+		if !ok || !pureLib[ns.V] {
+			return e.errf("lib: %s is not a modelled pure library function", exprString(n.Args[0]))
+		}
+		f := vc.prog.libFunc(ns.V)
+		if f == nil {
+			return e.errf("lib: function %s is not in the loaded program", ns.V)
+		}
+		var as, sorts []string
+		for _, a := range n.Args[1:] {
+			v := e.tr(a)
+			as = append(as, v.T.S)
+			sorts = append(sorts, v.T.Sort)
+		}
+		res := f.Signature.Results()
+		if res.Len() < 1 {
+			return e.errf("lib: %s has no result", ns.V)
+		}
+		rs := vc.sorts.SortOf(res.At(0).Type())
+		fn := libFuncName(ns.V, 0, sorts)
+		vc.declareFun(fn, sorts, rs)
+		if len(as) == 0 {
+			return TVal{T: Term{fn, rs}, Ty: res.At(0).Type()}
+		}
+		return TVal{T: Term{app(fn, as...), rs}, Ty: res.At(0).Type()}
 	case "mark":
 		// instantiation hint: asserts the (otherwise unconstrained) trigger predicate
 		// qt_<sorts>(args), so universally quantified assumptions fire on this tuple
